@@ -106,6 +106,18 @@ impl<K: Copy + Ord, V: Copy> BTreeMap<K, V> {
         self.slots[self.len] = None;
         old
     }
+    /// insert every entry of `o` (later keys overwrite), like Extend<(K, V)>
+    pub fn extend(&mut self, o: BTreeMap<K, V>) {
+        let mut i = 0;
+        while i < MAP_CAP {
+            if i < o.len {
+                if let Some((k, v)) = o.slots[i] {
+                    self.insert(k, v);
+                }
+            }
+            i += 1;
+        }
+    }
     pub fn iter(&self) -> MapIter<'_, K, V> {
         MapIter { m: self, i: 0 }
     }
@@ -120,6 +132,12 @@ impl<K: Copy + Ord, V: Copy> BTreeMap<K, V> {
     }
     pub fn last_key_value(&self) -> Option<(&K, &V)> {
         if self.len == 0 { None } else { self.slots[self.len - 1].as_ref().map(|(k, v)| (k, v)) }
+    }
+    /// model-only: build a map directly from its representation (harnesses use it together
+    /// with `kani::assume(m.model_wf())` to get an ARBITRARY well-formed map without paying for
+    /// symbolic insertions)
+    pub fn model_from_raw(len: usize, slots: [Option<(K, V)>; MAP_CAP]) -> Self {
+        BTreeMap { len, slots }
     }
     /// model-only: sortedness / density invariant
     pub fn model_wf(&self) -> bool {
